@@ -4,6 +4,7 @@ package server
 // network, inside a synctest bubble.  Shared by every family.
 
 import (
+	"sync/atomic"
 	"log/slog"
 	"context"
 	"crypto/sha256"
@@ -79,6 +80,8 @@ type simWorld struct {
 	probes    map[string]int
 	local     map[viewKey]*annRoute
 	tags      map[uint32]*annRoute
+	grReleasedAll  time.Duration // restarting speaker: instant the End-of-RIB condition was first seen to hold (0: not yet)
+	grReleasedPeer map[int]bool  // restarting speaker: peers whose deferral timer has fired
 	tagsPfx   map[string]*annRoute // "tag/prefix" -> announcement, for bursts whose routes share one tag (identical attribute sets)
 	harnessEr string
 	stateFPs  []string
@@ -95,7 +98,13 @@ type simWorld struct {
 
 func (w *simWorld) now() time.Duration { return time.Since(w.start) }
 
+// vsimProgress counts harness activity (event-log lines and probes).  The watchdog outside the
+// bubble uses it to tell a livelock (a goroutine of the daemon spinning: the scheduler keeps picking,
+// but virtual time and the script stand still) from a long run.
+var vsimProgress atomic.Uint64
+
 func (w *simWorld) logf(format string, a ...any) {
+	vsimProgress.Add(1)
 	s := fmt.Sprintf("%9.3f ", w.now().Seconds()) + fmt.Sprintf(format, a...)
 	w.mu.Lock()
 	w.evlog = append(w.evlog, s)
@@ -103,6 +112,7 @@ func (w *simWorld) logf(format string, a ...any) {
 }
 
 func (w *simWorld) probe(name string) {
+	vsimProgress.Add(1)
 	w.mu.Lock()
 	w.probes[name]++
 	w.mu.Unlock()
